@@ -933,6 +933,17 @@ func c03R1(c *Ctx) {
 				cutHolds, cutNot = append(cutHolds, f), append(cutNot, t)
 				strictEq = false
 			default:
+				// an invariant assertion: one side of the comparison only leads to error returns
+				assertion := false
+				for _, e := range []Edge{t, f} {
+					if !toNext(e.To, 0, nil) && !reach(e.To, 0, fp.(ssa.Instruction), nil) && (rangeMode || c01SuccessReturnFrom(DB, e, nil, nil) == nil) {
+						assertion = true
+					}
+				}
+				if assertion {
+					cutPos = token.NoPos
+					continue
+				}
 				offByOne = "the cut-off uses " + op.String() + " between current.Depth and opts.Depth: nodes at depth opts.Depth are still expanded"
 			}
 		}
@@ -1161,7 +1172,7 @@ func c03R1(c *Ctx) {
 
 func c03R2(c *Ctx) {
 	const R = "C03.R2.shared-copy-state"
-	c.Expect(R, 4)
+	c.Expect(R, 5)
 	E := c.P.Fn("", "ExtendedCopyGraph")
 	if E == nil {
 		c.LostAnchor(R, "~.ExtendedCopyGraph")
@@ -1270,6 +1281,19 @@ func c03R2(c *Ctx) {
 		return nil, nil
 	}
 	cg, cgArgs := find(perRoot, map[*ssa.Parameter]ssa.Value{}, 0)
+	// the failure of a root's copy is the per-root task's failure: the error of the copy call flows to the return and no
+	// deferred assignment to the named result can replace it by nil afterwards
+	surfaces := func(call ssa.CallInstruction) {
+		fn := call.Parent()
+		r := ErrFlow(call, ErrFlowOpts{})
+		over := c01DeferredOverwrite(fn)
+		ok := r.OK && over == ""
+		c.Check(R, "~.ExtendedCopyGraph|per-root-copy-error-surfaces", call.Pos(), ok,
+			ifelse(ok, "the error of the per-root copy reaches the task's return and is not overwritten by a deferred assignment", "a failed copy of a root's sub-DAG can be reported as success: "+r.Detail+over))
+	}
+	if cg != nil {
+		surfaces(cg)
+	}
 	if cg == nil && perRootRecv != nil {
 		// the per-root function is a method of the state struct that also carries the traversal: it dispatches the
 		// traversal itself; proxy, limiter and tracker are that one struct's fields — shared iff the struct is created once
@@ -1292,6 +1316,11 @@ func c03R2(c *Ctx) {
 			}
 		}
 		if dispatches {
+			for _, t := range c01Traversals(c.P) {
+				for _, d := range c01DispatchCalls(perRoot, t.Entry) {
+					surfaces(d.Call)
+				}
+			}
 			for _, what := range []string{"proxy", "limiter", "tracker"} {
 				c.Check(R, "~.ExtendedCopyGraph|shared-"+what, goCall.Pos(), once,
 					ifelse(once, "the "+what+" is a field of the one copy-state value created once outside the per-root function, whose method is dispatched per root", "the copy state whose method runs per root is not a single value created once: roots do not share the "+what))
@@ -2075,6 +2104,39 @@ func c03CheckFilterLoopY(G *ssa.Function, l *Loop, descMT *types.Var, yield ssa.
 			break
 		}
 		a0 := ap.Call.Args[0]
+		// lazily allocated accumulator: if acc == nil { acc = make([]T, 0, n) }; acc = append(acc, e)
+		if inner, ok := a0.(*ssa.Phi); ok && inner.Block() != l.Header && l.Blocks[inner.Block()] {
+			var hdr *ssa.Phi
+			okLazy := true
+			for _, ev := range inner.Edges {
+				switch u := ev.(type) {
+				case *ssa.Phi:
+					if u.Block() == l.Header && (hdr == nil || hdr == u) {
+						hdr = u
+					} else {
+						okLazy = false
+					}
+				case *ssa.MakeSlice:
+					if k, isK := constInt(u.Len); !isK || k != 0 {
+						okLazy = false
+					}
+				default:
+					okLazy = false
+				}
+			}
+			if okLazy && hdr != nil {
+				// the fresh slice is made only where the accumulator is still nil (nothing kept so far)
+				nilE, _, _ := NilTests(G, Aliases(hdr))
+				for _, ev := range inner.Edges {
+					if mk, isMk := ev.(*ssa.MakeSlice); isMk && (len(nilE) == 0 || !MustPass(mk, newCut().Edges(nilE...))) {
+						okLazy = false
+					}
+				}
+			}
+			if okLazy && hdr != nil {
+				a0 = hdr
+			}
+		}
 		if phi, ok := a0.(*ssa.Phi); ok && phi.Block() == l.Header {
 			if res.accPhi != nil && res.accPhi != phi {
 				res.why = "several accumulators"
@@ -2617,6 +2679,10 @@ func c03R7(c *Ctx) {
 }
 
 var c03Mutants = []Mutant{
+	{Name: "per-root-error-overwritten-by-deferred-start", File: "extendedcopy.go",
+		Old: "\treturn syncutil.Go(ctx, limiter, func(ctx context.Context, region *syncutil.LimitedRegion, root ocispec.Descriptor) error {\n\t\t// As a root can be a predecessor of other roots, release the limit here\n\t\t// for dispatching, to avoid dead locks where predecessor roots are\n\t\t// handled first and are waiting for its successors to complete.\n\t\tregion.End()\n\t\tif err := copyGraph(ctx, src, dst, root, proxy, limiter, tracker, opts.CopyGraphOptions); err != nil {\n\t\t\treturn err\n\t\t}\n\t\treturn region.Start()\n\t}, roots...)",
+		New: "\treturn syncutil.Go(ctx, limiter, func(ctx context.Context, region *syncutil.LimitedRegion, root ocispec.Descriptor) (err error) {\n\t\tregion.End()\n\t\tdefer func() {\n\t\t\terr = region.Start()\n\t\t}()\n\t\treturn copyGraph(ctx, src, dst, root, proxy, limiter, tracker, opts.CopyGraphOptions)\n\t}, roots...)",
+		Expect: "C03.R2.shared-copy-state|~.ExtendedCopyGraph|per-root-copy-error-surfaces"},
 	// --- the repository's own test suite stays green under these (verified in a scratch copy) ---
 	{Name: "only-manifest-predecessors-followed", File: "extendedcopy.go",
 		Old: "\t\t\tif !visited.Contains(predecessorKey) {",
